@@ -181,6 +181,22 @@ def pick_reference(tier):
     return sel
 
 
+def crafted_files():
+    """hand-made witnesses (corpus/C17): shapes no library-written or reference file has"""
+    d = os.path.join(vlib.VERIF, "corpus", "C17")
+    return sorted(os.path.join(d, f) for f in os.listdir(d) if f.endswith(".h5")) if os.path.isdir(d) else []
+
+
+def read_signature_variant():
+    """which readSignature the tree under test has (a syntactic fact read from the source, DESIGN 4.4):
+    True = repaired (returns the read error), False = returns "" on a failed read"""
+    src = open(os.path.join(vlib.REPO, "file.go")).read()
+    m = re.search(r"func readSignature\(r io\.ReaderAt, address uint64\) (\(string, error\)|string) \{", src)
+    if not m:
+        raise RuntimeError("file.go: readSignature not found (the model's switch IOProgOpen.repaired cannot be set)")
+    return m.group(1) != "string"
+
+
 # ----------------------------------------------------------------------------- cuts
 
 def boundaries(path):
@@ -424,7 +440,7 @@ def strace_read_sweep(ctx, files, baselines, viol, cov, budget_total):
     for tag, path, origin in usable:
         n, p = strace_count([H, "c17dump", path, "8", "hashed"], "pread64")
         per_file[tag] = dict(pread64_calls=n, hist=collections.Counter())
-        for k in pick_ks(n, budget, ctx.rng):
+        for k in pick_ks(n, (n if tag.startswith("crafted:") else budget), ctx.rng):
             for kind, spec in (("EIO", "error=EIO"), ("eof", "retval=0")):
                 jobs.append((tag, path, origin, k, kind, spec))
     def one(j):
@@ -585,7 +601,7 @@ def coq_val(v):
     return "VL [%s]" % "; ".join(coq_val(x) for x in v)
 
 
-def parser_tie(ctx, lib, viol, cov):
+def parser_tie(ctx, lib, viol, cov, repaired=True, workdir=None, crafted=()):
     """model programs (Model/IOProgReader.v) vs Go parsers: same image, same cut, same failing call:
     class, number of I/O calls made, value"""
     mpath = os.path.join(vlib.COQ, "theories", "Model", "IOProgTie.v")
@@ -595,7 +611,7 @@ def parser_tie(ctx, lib, viol, cov):
     H = ctx.harness
     rng = ctx.rng
     small = [(t, p, c) for t, p, c in lib if os.path.getsize(p) <= 6000][: (5 if ctx.tier == "quick" else 12)]
-    vparts = ["From HV Require Import Base.Prelude Base.Outcome Base.Bytes Model.IOProg Model.IOProgReader Model.IOProgTie.\n"]
+    vparts = ["From HV Require Import Base.Prelude Base.Outcome Base.Bytes Model.IOProg Model.IOProgReader Model.IOProgOpen Model.IOProgTie.\n"]
     labels, total = [], 0
     stats = collections.Counter()
     KINDS = [("eio", 0, 0), ("eof0", 0, 1), ("shortn", 4, 5), ("shortn", 20, 21), ("shortn", 60, 61)]
@@ -638,6 +654,29 @@ def parser_tie(ctx, lib, viol, cov):
                 name, op_code(op), fi, addr, name, name))
             labels.append(("bad_" + name, tag, op, addr, res, path))
             total += len(res)
+    # hdf5.Open as a whole (Model/IOProgOpen.v p_open) on truncated copies: class and tree
+    opens = [(t, p) for t, p, _ in small[:3]] + [(t, p) for t, p, _ in crafted]
+    for oi, (tag, path) in enumerate(opens):
+        img = open(path, "rb").read()
+        size = len(img)
+        cuts = [-1] + sorted(set([0, 8, 48, 96, size - 1, size - 9] + [rng.randrange(size) for _ in range(10 if ctx.tier == "quick" else 80)]
+                                 + [b + d for b in boundaries(path) for d in (-1, 0) if 0 <= b + d < size]))
+        r = vlib.run_harness(H, "c17parse", [dict(img=img.hex(), op="open", dir=workdir, cuts=cuts, fault=[-1] * len(cuts))])[0]["res"]
+        intact = r[0]
+        for c, x in zip(cuts, r):
+            stats["open:%s" % ("ok", "err", "panic")[x["class"]]] += 1
+            if x["class"] == 2 or (x["class"] == 0 and (intact["class"] != 0 or x.get("v") != intact.get("v"))):
+                viol.append(dict(what="%s: Open on the file cut to %d bytes returns %s" % (tag, c, "a panic" if x["class"] == 2 else "a different tree"),
+                                 failing_input=dict(kind="parser", file=path, op="open", addr=0, cut=c, fault=-1), intact=intact, observed=x))
+        name = "open_%d" % oi
+        vparts.append('Definition img_%s : bytes := unhex "%s".\n' % (name, img.hex()))
+        vparts.append("Definition v_%s : val := %s.\n" % (name, coq_val(intact.get("v")) if intact["class"] == 0 else "VL []"))
+        vparts.append("Definition %s : list (Z * Z * N * N * N) := [%s].\n" % (
+            name, ";".join("((%d)%%Z, (-1)%%Z, 0, %d, 0)" % (c, x["class"]) for c, x in zip(cuts, r))))
+        vparts.append("Definition bad_%s := Eval vm_compute in mismatches (open_ok %s img_%s v_%s) %s.\n" % (
+            name, "true" if repaired else "false", name, name, name))
+        labels.append(("bad_" + name, tag, "open", 0, [((c, -1, 0), x) for c, x in zip(cuts, r)], path))
+        total += len(cuts)
     vparts.append("Definition ALLBAD := Eval vm_compute in [%s].\nPrint ALLBAD.\n" % ";".join("N.of_nat (List.length %s)" % l[0] for l in labels))
     for l in labels:
         vparts.append("Print %s.\n" % l[0])
@@ -696,7 +735,11 @@ def run(ctx):
     td = os.path.join(vlib.REPO, "testdata")
     for p in refs:
         files.append(("ref:" + os.path.relpath(p, td), p, dict(reference=os.path.relpath(p, vlib.REPO))))
-    cov["files"] = dict(library_written=[t for t, _, _ in lib], reference=len(refs), notes=notes)
+    crafted = [("crafted:" + os.path.basename(p), p, dict(crafted=os.path.relpath(p, vlib.VERIF))) for p in crafted_files()]
+    files += crafted
+    repaired = read_signature_variant()
+    cov["files"] = dict(library_written=[t for t, _, _ in lib], reference=len(refs), crafted=[t for t, _, _ in crafted], notes=notes,
+                        read_signature_returns_error=repaired)
     timings = {}
     # T
     t = time.time()
@@ -714,7 +757,7 @@ def run(ctx):
     if strace_ok():
         t = time.time()
         sfiles = [f for f in files if os.path.getsize(f[1]) <= 16384]
-        sfiles = sfiles[:(14 if ctx.tier == "quick" else 60)]
+        sfiles = sfiles[:(14 if ctx.tier == "quick" else 60)] + [f for f in crafted if f not in sfiles[:14]]
         ns = strace_read_sweep(ctx, sfiles, baselines, viol, cov, budget_total=(1600 if ctx.tier == "quick" else 20000))
         timings["strace_read_s"] = round(time.time() - t, 1)
         t = time.time()
@@ -724,7 +767,7 @@ def run(ctx):
         viol.append(dict(what="strace is not installed: the syscall-level fault injection cannot run", nofail=True, correspondence="tools/strace"))
     # P
     t = time.time()
-    npar = parser_tie(ctx, lib, viol, cov)
+    npar = parser_tie(ctx, lib, viol, cov, repaired, workdir, crafted)
     timings["parser_tie_s"] = round(time.time() - t, 1)
     # known findings
     listed = {k["id"]: k for k in vlib.known_findings("C17")}
@@ -760,7 +803,7 @@ def run(ctx):
         rule="one evaluation = one (file, truncation length) or one (file / history, failing call index, fault kind), each a full sweep of the "
              "read API (or one parser / one write history); non-trivial = the damaged run got past Open / past the first call "
              "(some or all calls still answered) so the comparison with the intact answers is exercised, not only 'Open failed'",
-        samples=[dict(file=f[0], size=os.path.getsize(f[1]), origin=(f[2] if "reference" in f[2] else "history of %d ops" % len(f[2]["history"]["ops"]))) for f in files[:4]],
+        samples=[dict(file=f[0], size=os.path.getsize(f[1]), origin=(f[2] if "history" not in f[2] else "history of %d ops" % len(f[2]["history"]["ops"]))) for f in files[:4]],
         outcome_histogram=dict(outcome), counts=dict(truncations=ntr, python_gate_recheck=nrs, inprocess_fault_points=nf,
                                                       strace_read_points=ns, strace_write_points=nw, parser_cases=npar),
         timings=timings, programs=len(files), disagreements_checked=npar, exhaustive=False))
@@ -771,6 +814,8 @@ def classify_known(v):
     """map a violation to the id of a known-finding class (ids proposed in notes/c17-known-findings-proposed.json)"""
     fi = v.get("failing_input") or {}
     w = v.get("what", "")
+    if fi.get("kind") == "strace-read" and "crafted" in (fi.get("origin") or {}) and "unnamed-snod-container" in fi.get("file", ""):
+        return "C17-read-signature-error-dropped"
     if fi.get("kind") == "strace-write" and "every API call still reports success" in w:
         if fi.get("syscall") in ("fsync", "close"):
             return "C17-close-sync-error-dropped"
@@ -792,6 +837,8 @@ def replay(ctx, path):
         fpath = vlib.run_harness(H, "hist", [case])[0].get("file")
     elif origin.get("reference"):
         fpath = os.path.join(vlib.REPO, origin["reference"])
+    elif origin.get("crafted"):
+        fpath = os.path.join(vlib.VERIF, origin["crafted"])
     bad = []
     k = fi.get("kind")
     if k == "trunc":
